@@ -15,6 +15,7 @@ REGISTRY = {
     "C07": ("p_resampler", "C07"),
     "C08": ("p_resampler", "C08"),
     "C09": ("p_ringbuffer", "C09"),
+    "C10": ("p_actor", "C10"),
     "C11": ("p_powermanager", "C11"),
     "C12": ("p_graphformulas", "C12"),
     "C14": ("p_powerdist", "C14"),
